@@ -1540,6 +1540,25 @@ def get_blocks_rules(run, R="MPT"):
                     nxt = none_t if none_t else [tt2["otherwise"]]
             if tt2["k"] == "call" and not tt2["dest"]["p"]:
                 nk.discard(tt2["dest"]["l"])
+                # `x.is_none()` / `x.is_some()` of a local just assigned None: the answer is known at the test that follows
+                cal2 = tt2.get("callee") or ""
+                if cal2 in ("std::option::Option::<T>::is_none", "std::option::Option::<T>::is_some") and tt2["args"]:
+                    o2 = f.origin_op(tt2["args"][0])
+                    src2 = None
+                    if o2 and o2[0] == "ref" and o2[1][0] == "multi":
+                        src2 = o2[1][1]
+                    elif op_local(tt2["args"][0]) is not None:
+                        ds2 = f.full_defs(op_local(tt2["args"][0]))
+                        if len(ds2) == 1 and ds2[0][0] == "stmt" and ds2[0][3]["rv"]["k"] == "ref" and not ds2[0][3]["rv"]["place"]["p"]:
+                            src2 = ds2[0][3]["rv"]["place"]["l"]
+                    if src2 in nk and tt2.get("target") is not None:
+                        # follow the call's continuation and resolve the switch on its result right there
+                        y = tt2["target"]
+                        ty = f.blocks[y]["term"]
+                        if ty["k"] == "switch" and op_local(ty["discr"]) == tt2["dest"]["l"] and not f.blocks[y]["stmts"]:
+                            truth = cal2.endswith("is_none")
+                            ft_ = [tg for v, tg in ty["targets"] if v == "0"]
+                            nxt = [ty["otherwise"]] if truth else (ft_ if ft_ else [ty["otherwise"]])
             for y in nxt:
                 work.append((y, frozenset(nk)))
         ok = not escaped
